@@ -55,7 +55,7 @@ PROPS = {
         "level": "exploration",
         "budget": {"quick": 30, "thorough": 600},
         "runs_per_proc": 150,
-        "technique": "deterministic simulation: seeded schedules over generated append/truncate/reopen/reader programs, reference-model oracle (slice of records, independent wire codec)",
+        "technique": "deterministic simulation: seeded schedules over generated append/truncate/reopen/reader programs, reference-model oracle (slice of records, independent wire codec); in half of the programs simulated time also passes while tasks are runnable (5-40 per mille of the scheduling steps), so the log's own timers - the cleaner's tick with its age/size roll, the checkpoint loop - fire in the middle of appends, truncations, cleans and reads",
         "level_text": "seeded exploration: thousands of generated programs per run, each under one seeded interleaving of appender, live readers and the log's background loops; every read-back compared field by field with a slice model",
         "level_note": "trusted: Go runtime + testing/synctest, the instrumenter's semantic preservation, the harness model and independent codec; sampling, not enumeration",
         "rule": "programs of <=40 (thorough <=64) operations over append/message-set append/truncate/reopen/epoch/HW/live readers, generated from the run seed; "
@@ -82,7 +82,7 @@ PROPS["C03"] = {
     "level": "exploration",
     "budget": {"quick": 30, "thorough": 600},
     "runs_per_proc": 150,
-    "technique": "deterministic simulation: appender, two HW movers (a third of the moves go to the log end, some carry stale lower values), read-only toggler and committed readers as concurrently scheduled tasks with seeded preemption at every lock and wake-up; online invariants after every step plus bounded-liveness check at quiescence",
+    "technique": "deterministic simulation: appender, two HW movers (a third of the moves go to the log end, some carry stale lower values), read-only toggler and committed readers as concurrently scheduled tasks with seeded preemption at every lock and wake-up; online invariants after every step plus bounded-liveness check at quiescence; in half of the programs simulated time also passes while tasks are runnable (5-40 per mille of the scheduling steps), so the log's own timers - the cleaner's tick with its age/size roll, the checkpoint loop - fire in the middle of appends, truncations, cleans and reads",
     "level_text": "seeded exploration of interleavings of the real commitlog code: HW monotonicity checked after every scheduling step, every delivery checked against the HW and the model at the moment it is handed out, and after the last append every reader must have received exactly [start..HW] within 120 simulated seconds (a lost wake-up shows up as a stuck reader)",
     "level_note": "preemption points are lock acquisitions, channel operations, selects, timers; memory races outside those are not explored",
     "rule": "programs of <=36 (thorough <=66) operations split over four concurrent tasks; distinct = distinct event-log hash; non-trivial = at least one committed reader received >=3 messages and at least one preemption changed the running task",
@@ -94,7 +94,7 @@ PROPS["C08"] = {
     "level": "exploration",
     "budget": {"quick": 40, "thorough": 600},
     "runs_per_proc": 100,
-    "technique": "deterministic simulation: compaction (real Clean with 1/2/10 scan workers as scheduled tasks) interleaved with a concurrent appender/HW mover and live readers; survivor oracle computed from the statement; forward and reverse readers from every start offset compared with the survivor list",
+    "technique": "deterministic simulation: compaction (real Clean with 1/2/10 scan workers as scheduled tasks) interleaved with a concurrent appender/HW mover and live readers; survivor oracle computed from the statement; forward and reverse readers from every start offset compared with the survivor list; in half of the programs simulated time also passes while tasks are runnable (the checkpoint loop fires inside operations; the log's own cleaner tick is switched off, cleans are the harness's)",
     "level_text": "seeded exploration over key patterns (nil, empty, four keys), segment layouts, HW positions, repeated cleans, cleans racing appends and readers; after every clean the survivors are judged (must-survive set, nothing else removed than superseded keyed committed messages, content unchanged) and every start offset is read forwards and backwards, committed and uncommitted",
     "level_note": "when retention is also configured, removal of whole oldest segments is left to C09 and the C08 clauses apply above the first surviving offset",
     "rule": "programs of <=30 (thorough <=50) operations; distinct = distinct event-log hash; non-trivial = at least one clean removed at least one message and >=10 oracle evaluations",
@@ -106,7 +106,7 @@ PROPS["C09"] = {
     "level": "exploration",
     "budget": {"quick": 30, "thorough": 600},
     "runs_per_proc": 60,
-    "technique": "deterministic simulation on the fake clock: sampled segment layouts (counts, bytes, last-write times via clock jumps), limit triples enumerated around the layout's suffix sums and ages, repeated cleans, cleans racing an appender; expected number of removed segments computed from the statement",
+    "technique": "deterministic simulation on the fake clock: sampled segment layouts (counts, bytes, last-write times via clock jumps), limit triples enumerated around the layout's suffix sums and ages, repeated cleans, cleans racing an appender; expected number of removed segments computed from the statement; in half of the programs simulated time also passes while tasks are runnable (5-40 per mille of the scheduling steps), so the log's own timers - the cleaner's tick with its age/size roll, the checkpoint loop - fire in the middle of appends, truncations, cleans and reads",
     "level_text": "for every sampled layout a probing run records per-segment message counts, byte sizes and ages; limit values at, just below and just above every suffix sum / segment age are combined (quick: 12 sampled triples, thorough: all up to 400 per layout); after each clean the remaining segments must be exactly the suffix that the smallest sufficient removal leaves, and the log must read back from its new oldest offset",
     "level_note": "per-segment facts are derived from the harness model (independent encoder for byte sizes) and the segment base offsets; message timestamps are monotone",
     "rule": "one evaluation = one (layout program, limit triple) execution; distinct = distinct event-log hash; non-trivial = at least one clean was judged and >=5 oracle evaluations",
@@ -120,7 +120,7 @@ PROPS["C16"] = {
     "level": "exploration",
     "budget": {"quick": 40, "thorough": 600},
     "runs_per_proc": 60,
-    "technique": "deterministic simulation of one real server: 2-8 publisher tasks race conditional publishes through the real API, NATS bus and partition message loop under seeded schedules; history checked with porcupine against a 'log length' register plus direct log read-back checks",
+    "technique": "deterministic simulation of one real server: 2-8 publisher tasks race conditional publishes through the real API, NATS bus and partition message loop under seeded schedules; history checked with porcupine against a 'log length' register plus direct log read-back checks; the stream is paused now and then (the next publish resumes it) and a tenth of the publishes use ack policy NONE (refused on such a stream; a success without acknowledgement is judged against the log)",
     "level_text": "seeded exploration of publish interleavings (delivery order on the stream subject, preemption of the message loop, batching settings); every history is checked for linearizability against the model 'publish(e) succeeds at L iff e in {-1, L}', and the final log is read back: acknowledged values at their offsets, rejected values nowhere, at most one winner per expected offset, waived checks never rejected",
     "level_note": "single server, replication factor 1, no faults; histories with an unknown outcome (time-out) are not fed to the linearizability checker",
     "rule": "programs of <=28 (thorough <=44) publishes by 2-8 clients with expected offsets from {-1, current, stale, future}; distinct = distinct event-log hash; non-trivial = at least one accepted and one rejected publish among >=4",
@@ -144,7 +144,7 @@ PROPS["C15"] = {
     "level": "exploration",
     "budget": {"quick": 45, "thorough": 600},
     "runs_per_proc": 40,
-    "technique": "deterministic simulation of one real server with casbin authorisation enabled: generated policies (random subset of (resource, action) pairs for the restricted client), generated call sequences over every API method incl. streaming ones and requests with early side effects, policy rewrite + reload mid-run; state digest compared before/after every refused call",
+    "technique": "deterministic simulation of one real server with casbin authorisation enabled: generated policies (random subset of (resource, action) pairs for the restricted client), generated call sequences over every API method incl. streaming ones and requests with early side effects, policy rewrite + reload mid-run; state digest compared before/after every refused call; long-lived PublishAsync calls kept open across reloads; 6% of the programs switch authorisation on without model/policy (every call must be refused)",
     "level_text": "for every call the generated policy does not allow the check demands an error and an identical state digest (streams, paused/read-only flags, every partition's log and HW, the cursors stream, the authorised client's group subscription still open, nothing delivered to the restricted client) after the system settled",
     "level_note": "client identity is put into the context as authz.go does after TLS verification (TLS itself is bypassed); consumer-group methods have no documented action and are reported unclassified-by-docs; every method of client.APIServer is discovered by reflection and must be classified",
     "rule": "programs of 10-30 (thorough -60) API calls; distinct = distinct event-log hash; non-trivial = >=2 refused calls judged and >=1 allowed call",
@@ -168,7 +168,7 @@ PROPS["C17"] = {
     "level": "exploration",
     "budget": {"quick": 45, "thorough": 600},
     "runs_per_proc": 25,
-    "technique": "deterministic simulation of one real server with a master key: values of sampled sizes are published to an encrypted stream and read back through the real Subscribe handler; stored-byte flip faults (record checksum recomputed) are enumerated over every byte position of sampled stored values, and the server is restarted under a different master key",
+    "technique": "deterministic simulation of one real server with a master key: values of sampled sizes are published to an encrypted stream and read back through the real Subscribe handler; stored-byte flip faults (record checksum recomputed) are enumerated over every byte position of sampled stored values, and the server is restarted under a different master key; encryption is asked for by the stream option or by the server-wide default",
     "level_text": "exploration over values (empty, 1 B ... 4 KiB, marker-carrying) with enumeration over byte positions: round trip equality, no plaintext marker in any segment file, and for every tampered byte / wrong key a status error - never data, never a crash",
     "level_note": "tampering is done in the segment file of the running server with the commit log's own record CRC fixed up (plain bit rot is caught earlier by that CRC and is not this property); byte positions are exhaustive for the sampled values and the sampled flip mask",
     "rule": "one evaluation = one program of 2-9 publishes, 1-3 tampered values (all byte positions) and optionally a wrong-key restart; distinct = distinct event-log hash; non-trivial = >=2 values round-tripped and (>=10 byte flips or a wrong-key restart)",
@@ -180,7 +180,7 @@ PROPS["C11"] = {
     "level": "exploration",
     "budget": {"quick": 45, "thorough": 600},
     "runs_per_proc": 30,
-    "technique": "deterministic simulation of one real server with the internal cursors stream: 2-6 client tasks issue SetCursor/FetchCursor on hot keys (unique, non-monotone values), flood the cursor cache, sleep across auto-pause and cleaner ticks on the fake clock, restart the server, crash it, or let it die inside a commit-log file operation; 30 of the flood's own (cold) cursors are fetched back; per-key histories checked with porcupine (nondeterministic register: a failed set may or may not have been stored)",
+    "technique": "deterministic simulation of one real server with the internal cursors stream: 2-6 client tasks issue SetCursor/FetchCursor on hot keys (unique, non-monotone values), flood the cursor cache, sleep across auto-pause and cleaner ticks on the fake clock, restart the server, crash it, or let it die inside a commit-log file operation; 30 of the flood's own (cold) cursors are fetched back; per-key histories checked with porcupine (nondeterministic register: a failed set may or may not have been stored); in a quarter of the programs simulated time passes while tasks are runnable during the fault phase (2-3 per mille of the steps): timers fire in the middle of the servers' operations",
     "level_text": "seeded exploration of interleavings between cursor writes, cache fills after a miss, compaction/segment rolls of the cursors partition, auto-pause/resume and server restarts; every key's history must be linearizable against a register with initial value -1",
     "level_note": "single server (a leader change of the cursors partition is exercised as restart of the only replica); histories are cut at 200 operations per key; an inconclusive porcupine run is counted, not reported",
     "rule": "programs of 8-48 (thorough -108) operations over 4 hot keys; distinct = distinct event-log hash; non-trivial = >=2 sets and >=2 successful fetches",
@@ -192,7 +192,7 @@ PROPS["C14"] = {
     "level": "exploration",
     "budget": {"quick": 40, "thorough": 600},
     "runs_per_proc": 40,
-    "technique": "deterministic simulation of one real server with a foreign NATS client injecting structured corruptions of real frames (header byte flips, truncation to every short length, every header-length value, CRC flag without/with wrong CRC, wrong type byte, garbage, other envelope types) on every subject the server subscribes to; independent envelope decoder as oracle for what the stream stores",
+    "technique": "deterministic simulation of one real server with a foreign NATS client injecting structured corruptions of real frames (header byte flips, truncation to every short length, every header-length value, CRC flag without/with wrong CRC, wrong type byte, garbage, other envelope types) on every subject the server subscribes to; independent envelope decoder as oracle for what the stream stores; publish envelopes with headers named like the two the server sets itself, an ack inbox and every ack policy: the stored origin (subject, reply) must be the real one",
     "level_text": "system-level half of the property: no NATS handler task may panic, the server keeps serving regular publishes at the expected offsets, and every frame that arrived on the stream subject is stored either as exactly the envelope it encodes (independent decoder + CRC-32C) or verbatim; the encode/decode round trip is checked for publish and ack envelopes",
     "level_note": "exhaustive coverage of all byte strings is NOT claimed (that half is a pure-function question outside this technique); frames with a header length below the fixed header are counted as undecided",
     "rule": "programs of 20-80 (thorough -300) foreign frames; distinct = distinct event-log hash; non-trivial = >=10 frames of which >=3 on the stream subject",
@@ -222,7 +222,7 @@ PROPS["C12"] = {
     "level": "exploration",
     "budget": {"quick": 45, "thorough": 600},
     "runs_per_proc": 40,
-    "technique": "deterministic simulation of 2-3 metadata state machines (same engine as C06) applying one committed sequence of consumer-group operations: joins, leaves, expiries, coordinator changes, stream deletions and re-creations over <=4 members, 3 streams, 1-5 partitions, with overlapping subscriptions; seeded map-iteration order, apply schedules, snapshots and restarts; assignment oracle evaluated on every node whenever the cluster is settled",
+    "technique": "deterministic simulation of 2-3 metadata state machines (same engine as C06) applying one committed sequence of consumer-group operations: joins, leaves, expiries, coordinator changes, stream deletions and re-creations over <=4 members, 3 streams, 1-5 partitions, with overlapping subscriptions; seeded map-iteration order, apply schedules, snapshots and restarts; assignment oracle evaluated on every node whenever the cluster is settled; join requests that name a stream twice",
     "level_text": "seeded exploration over operation orders; oracle from the statement: every partition of every subscribed stream has exactly one owner who subscribed to it, nobody owns a partition of a stream they did not subscribe to (or that no longer exists), single-stream groups are balanced within one, and nodes with the same group epoch hand out identical assignments (including nodes rebuilt from a snapshot)",
     "level_note": "member expiry is exercised as the committed leave operation it results in; the liveness timers themselves need a coordinator that is a real server and are outside this engine; map ranges over string keys are visited in a seeded permutation so that order dependence shows",
     "rule": "programs of 8-38 (thorough -98) generated steps; distinct = distinct event-log hash; non-trivial = >=2 joins committed",
@@ -238,7 +238,7 @@ PROPS["C04"] = {
     "level": "exploration",
     "budget": {"quick": 60, "thorough": 900},
     "runs_per_proc": 25,
-    "technique": "deterministic simulation of a 2-3 server cluster (real partition leader/follower/replicator/commit loops) with a publisher client sending enveloped messages of mixed ack policies, sizes and batch boundaries straight to the stream subject; faults: server crash/restart, servers dying inside a commit-log file operation, one- and two-way network cuts, message loss/delay, stalls, time passing across the lag/leader-timeout timers; every acknowledgement is examined by a bus tap at the instant it leaves the leader",
+    "technique": "deterministic simulation of a 2-3 server cluster (real partition leader/follower/replicator/commit loops) with a publisher client sending enveloped messages of mixed ack policies, sizes and batch boundaries straight to the stream subject; faults: server crash/restart, servers dying inside a commit-log file operation, one- and two-way network cuts, message loss/delay, stalls, time passing across the lag/leader-timeout timers; every acknowledgement is examined by a bus tap at the instant it leaves the leader; in a quarter of the programs simulated time passes while tasks are runnable during the fault phase (2-3 per mille of the steps): timers fire in the middle of the servers' operations",
     "level_text": "seeded exploration of interleavings of publishes, follower fetches, ISR shrink/expand and commit checks under faults; oracle at the ack instant: ALL => every member of the leader's in-sync set holds exactly that message at that offset and the set has the minimum size; LEADER => the leader holds it; NONE => never positively acked; offset/correlation id/policy belong to the message; oversized or wrong-expected-offset messages are nacked and stored by nobody",
     "level_note": "in-sync members that are down at the ack instant are not inspected; negative acks for NONE-policy messages are not judged (the statement leaves it open)",
     "rule": "programs of 6-29 (thorough -75) operations on 2-3 servers, RF 1-3, min ISR 1-RF, batch sizes 1-1024; distinct = distinct event-log hash; non-trivial = >=3 messages published and >=1 ack observed",
@@ -250,7 +250,7 @@ PROPS["C02"] = {
     "level": "exploration",
     "budget": {"quick": 90, "thorough": 900},
     "runs_per_proc": 25,
-    "technique": "deterministic simulation of a 2-5 server cluster (real leader/follower/replicator/commit loops, real epoch-based log reconciliation, real controller failover logic over the Raft stub) with a publisher client; faults: leader and follower crash/restart (repeated), one- and two-way network cuts, message loss/delay, stalled (slow) leaders and followers, servers dying inside a commit-log file operation (log write, index write, rename, checkpoint replace) and again right after a restart, time passing across the lag/leader-timeout timers; 40% of the programs are generated failover chains (lagging follower, isolated leader with an uncommitted tail, leader crash, election, catch-up across the epoch boundary, re-election, deposed leaders rejoining); replica logs are compared offset by offset at every operation boundary and after a convergence period; further generated scenario families: two-replica leadership ping-pong (partition, crash or stall of the leader, empty epochs, uncommitted tails, publishes appended one by one), five-server chains in which a replica misses a whole epoch",
+    "technique": "deterministic simulation of a 2-5 server cluster (real leader/follower/replicator/commit loops, real epoch-based log reconciliation, real controller failover logic over the Raft stub) with a publisher client; faults: leader and follower crash/restart (repeated), one- and two-way network cuts, message loss/delay, stalled (slow) leaders and followers, servers dying inside a commit-log file operation (log write, index write, rename, checkpoint replace) and again right after a restart, time passing across the lag/leader-timeout timers; 40% of the programs are generated failover chains (lagging follower, isolated leader with an uncommitted tail, leader crash, election, catch-up across the epoch boundary, re-election, deposed leaders rejoining); replica logs are compared offset by offset at every operation boundary and after a convergence period; further generated scenario families: two-replica leadership ping-pong (partition, crash or stall of the leader, empty epochs, uncommitted tails, publishes appended one by one), five-server chains in which a replica misses a whole epoch; in a quarter of the programs simulated time passes while tasks are runnable during the fault phase (2-3 per mille of the steps): timers fire in the middle of the servers' operations",
     "level_text": "seeded exploration of interleavings of publish, follower fetch, commit, leader crash, election from the in-sync set, follower restart with epoch-based truncation and ISR shrink/expand, including repeated failovers; oracle: pairwise equality of replicas at every offset both hold at or below both high watermarks; every ALL-acknowledged message is on every later leader at its offset; after convergence on every in-sync replica",
     "level_note": "acks from a server that no longer leads at the ack instant are not counted as commits; Raft is the ordered-commit stub, so metadata-level split brain is not explored",
     "rule": "programs of 6-29 (thorough -75) operations on 2-5 servers; distinct = distinct event-log hash; non-trivial = >=3 messages published and >=1 committed",
@@ -274,7 +274,7 @@ PROPS["C18"] = {
     "level": "exploration",
     "budget": {"quick": 45, "thorough": 600},
     "runs_per_proc": 30,
-    "technique": "deterministic simulation of one real server with the activity stream enabled: stream and consumer-group operations through the real API, activity publish failures (deliveries on the activity subject dropped, so publishes time out and the dispatcher backs off), simulated time across the back-off schedule, Raft snapshots with log truncation, controller leadership loss, clean stop/crash/death inside a commit-log file operation and restart, the cursors stream configured or not; after a fault-free convergence period the __activity log is compared with the committed Raft log",
+    "technique": "deterministic simulation of one real server with the activity stream enabled: stream and consumer-group operations through the real API, activity publish failures (the activity stream itself made read-only or paused; deliveries on the activity subject dropped, so publishes time out and the dispatcher backs off), simulated time across the back-off schedule, Raft snapshots with log truncation, controller leadership loss, clean stop/crash/death inside a commit-log file operation and restart, the cursors stream configured or not; after a fault-free convergence period the __activity log is compared with the committed Raft log; in a quarter of the programs simulated time passes while tasks are runnable during the fault phase (2-3 per mille of the steps): timers fire in the middle of the servers' operations",
     "level_text": "seeded exploration of operation/fault histories; oracle: every committed stream/group operation has an event whose id is its Raft index and whose content matches it, first appearances are in commit order, redeliveries of an id are byte-identical, no event exists for an entry that has none; bounded liveness: 90 simulated seconds after the last fault the dispatcher has caught up",
     "level_note": "single server (controller change = leadership loss and re-election of the same server, or restart); the activity partition is led by the same server",
     "rule": "programs of 6-29 (thorough -75) operations; distinct = distinct event-log hash; non-trivial = >=3 API operations",
@@ -286,7 +286,7 @@ PROPS["C19"] = {
     "level": "exploration",
     "budget": {"quick": 40, "thorough": 400},
     "runs_per_proc": 40,
-    "technique": "deterministic simulation of one real server (real config parsing, real telemetry collector on the fake clock) whose HTTP transport is a recorder; the on/off wish reaches the server through each documented route (programmatic Config, YAML file, environment variable, file plus environment); streams, subjects, messages and NATS credentials with recognisable contents; simulated days pass, the server is stopped, crashed and restarted at seeded points",
+    "technique": "deterministic simulation of one real server (real config parsing, real telemetry collector on the fake clock) whose HTTP transport is a recorder; the on/off wish reaches the server through each documented route (programmatic Config, YAML file, environment variable, file plus environment); streams, subjects, messages and NATS credentials with recognisable contents; simulated days pass, the server is stopped, crashed and restarted at seeded points; an explicit zero interval with telemetry off",
     "level_text": "seeded exploration over configuration routes x interval settings x lifecycle histories; oracle: disabled => no request at all over the whole run including shutdown; enabled => requests only to the telemetry host, JSON body with exactly the documented field set, a version-4 UUID instance id that is stable across restarts, no recognisable user string and no host name",
     "level_note": "the environment variable is set in the worker process for the duration of a run (runs in one worker are sequential); network access is not attempted (recorder)",
     "rule": "programs of 4-15 lifecycle operations; distinct = distinct event-log hash; every run is counted as non-trivial (each evaluates the request log)",
